@@ -213,7 +213,7 @@ fn gen_uci_case(cur: &mut Cursor) -> Value {
             }
         })
         .collect();
-    json!({"fen": p.fen(), "src": src, "all_strings": all, "texts": texts})
+    crate::common::with_twin(cur, json!({"fen": p.fen(), "src": src, "all_strings": all, "texts": texts}))
 }
 
 // ------------------------------------------------------------------------------------------
@@ -377,7 +377,7 @@ fn gen_san_case(cur: &mut Cursor) -> Value {
             }
         }
     }
-    json!({"fen": p.fen(), "src": src, "texts": texts})
+    crate::common::with_twin(cur, json!({"fen": p.fen(), "src": src, "texts": texts}))
 }
 
 // ------------------------------------------------------------------------------------------
@@ -387,7 +387,7 @@ fn gen_walk2_case(cur: &mut Cursor) -> Value {
     let (p, src) = gen_position(cur);
     let n = 1 + cur.below(200);
     let steps: Vec<u8> = (0..n).map(|_| cur.u8()).collect();
-    json!({"fen": p.fen(), "src": src, "steps": steps})
+    crate::common::with_twin(cur, json!({"fen": p.fen(), "src": src, "steps": steps}))
 }
 
 fn walk_check(case: &Value, stats: &mut Stats) -> CheckResult {
